@@ -119,13 +119,13 @@ Proof. unfold cabs, cabs2. cbn [add mul RA]. apply sqrt_sqrt. nra. Qed.
 
 Lemma coh_value e : e_XX e <> 0 -> e_YY e <> 0 -> g_coh_csd RA FR e = cabs2 (e_XY e) / (e_XX e * e_YY e).
 Proof.
-  intros HX HY. unfold g_coh_csd. apply neqb_true in HX, HY. cbn [ofZ RA] in *. rewrite HX, HY. cbn [andb div mul RA sqrtT FR].
-  rewrite cabs_sq. reflexivity.
+  intros HX HY. unfold g_coh_csd. pose proof HX as HX'. pose proof HY as HY'. apply neqb_true in HX', HY'. cbn [ofZ RA] in *. rewrite HX', HY'. cbn [andb div mul RA sqrtT FR].
+  rewrite <- cabs_sq. simpl T in *. field. split; assumption.
 Qed.
 Lemma coh_zero_case e : e_XX e = 0 \/ e_YY e = 0 -> g_coh_csd RA FR e = 0.
 Proof.
   intros H. unfold g_coh_csd. cbn [ofZ RA eqb]. unfold r_eqb.
-  destruct (Req_EM_T (e_XX e) 0), (Req_EM_T (e_YY e) 0); cbn; try reflexivity. destruct H; contradiction.
+  destruct (Req_EM_T (e_XX e) 0), (Req_EM_T (e_YY e) 0); cbn [negb andb zero mul RA]; try (simpl T in *; ring). destruct H; contradiction.
 Qed.
 
 (* Cauchy-Schwarz for the averaged statistics is a kernel fact (KernelThms2.cauchy_schwarz_stats); here it is the hypothesis *)
@@ -154,9 +154,11 @@ Theorem swap_channels e :
   g_Gxx_csd RA FR (swap_env e) = g_Gyy_csd RA FR e /\ g_Gyy_csd RA FR (swap_env e) = g_Gxx_csd RA FR e.
 Proof.
   repeat split; try reflexivity.
-  - unfold g_coh_csd, swap_env. cbn [e_XX e_YY e_XY]. rewrite andb_comm.
+  - unfold g_coh_csd, swap_env. cbn [e_XX e_YY e_XY]. rewrite (andb_comm (negb (eqb RA (e_YY e) (ofZ RA 0)))).
     destruct (negb (eqb RA (e_XX e) (ofZ RA 0)) && negb (eqb RA (e_YY e) (ofZ RA 0))); [|reflexivity].
-    unfold cabs, cconj. cbn [fst snd add mul opp div RA]. f_equal; [f_equal; f_equal; rring|rring].
+    assert (Hc : cabs RA (sqrtT RA FR) (cconj RA (e_XY e)) = cabs RA (sqrtT RA FR) (e_XY e)).
+    { unfold cabs, cconj. cbn [fst snd add mul opp RA]. f_equal. simpl T in *. ring. }
+    rewrite Hc. cbn [mul RA]. simpl T in *. ring.
   - unfold g_Gyx_csd, g_Gxy_csd, swap_env. cbn [e_S2 e_XY e_fs].
     destruct (negb (eqb RA (e_S2 e) (ofZ RA 0))).
     + unfold cdivr, cscale, cconj. cbn [fst snd div mul opp ofZ RA]. f_equal. unfold Rdiv. rring.
